@@ -447,3 +447,40 @@ def _apply(node, table, xa, dumps=None) -> Term:
         return xa
 
     return go(node, xa)
+
+
+# ------------------------------------------------------------------------------------------------ evaluation (C12 / C04)
+def sym_metric(true, pred):
+    """Uninterpreted metric: records exactly which (true, predicted) pair was scored."""
+    return Term('metric', symbolic.term(true), symbolic.term(pred))
+
+
+def sym_reduce(*values):
+    return Term('reduce', *(symbolic.term(v) for v in values))
+
+
+def evaluator(kind: str, n: int, name: str = 'cvE', log=None):
+    """Real evaluation operator over symbolic metric / splitter: kind in {'crossval', 'holdout', 'perftrack'}."""
+    from forml import evaluation
+
+    metric = evaluation.Function(sym_metric, reducer=sym_reduce)
+    if kind == 'perftrack':
+        return evaluation.PerfTrackScore(metric)
+    if kind == 'holdout':
+        method = evaluation.HoldOut(splitter=SymFolds.builder(name=name, n=2, log=log))
+    else:
+        method = evaluation.CrossVal(splitter=SymFolds.builder(name=name, n=n, log=log), nsplits=n)
+    return evaluation.TrainTestScore(metric, method)
+
+
+def denote_traintest(expr: dict, kind: str, n: int, x: Term, y: Term, name: str = 'cvE') -> Term:
+    """[[expr >> TrainTestScore(metric, CrossVal n | HoldOut)]]: the metric term delivered by the train segment."""
+    folds = 2 if kind == 'holdout' else n
+    sigma = Term('cv', name, x, y)
+    scores = []
+    for i in range(1 if kind == 'holdout' else n):
+        tr, te = Term('idx', i, 'tr', sigma), Term('idx', i, 'te', sigma)
+        fold = denote(expr, Term('take', x, tr), Term('take', y, tr), Term('take', x, te))
+        scores.append(Term('metric', Term('take', y, te), fold.xa))
+    del folds
+    return scores[0] if len(scores) == 1 else Term('reduce', *scores)
